@@ -507,9 +507,19 @@ fn sized_rows_group(ctx: &Ctx, prop: &'static str, bin: bool) -> Report {
             cells.push(Cell { v: iv, form: Form::Val });
             want.push(cells.iter().map(|c| sem_of(&c.v)).collect());
             desc_rows.push(dr.join(","));
-            match rng.below(3) {
+            match rng.below(4) {
                 0 => ops.push(QOp::Row(cells, RowForm::Owned)),
                 1 => ops.push(QOp::Row(cells, RowForm::Borrowed)),
+                3 if cells.len() >= 2 => {
+                    // the row is begun with write_col and completed by write_row with the remaining cells
+                    let k = 1 + rng.usize(cells.len() - 1);
+                    let mut cells = cells;
+                    let rest = cells.split_off(k);
+                    for c in cells {
+                        ops.push(QOp::Col(c));
+                    }
+                    ops.push(QOp::Row(rest, if rng.bool() { RowForm::Owned } else { RowForm::Borrowed }));
+                }
                 _ => {
                     for c in cells {
                         ops.push(QOp::Col(c));
@@ -630,9 +640,19 @@ pub fn run_c06(ctx: &Ctx) -> Report {
                 .collect();
             want.push(cells.iter().map(|c| sem_of(&c.v)).collect());
             cells_all.extend(cells.iter().cloned());
-            match rng.below(3) {
+            match rng.below(4) {
                 0 => ops.push(QOp::Row(cells, RowForm::Owned)),
                 1 => ops.push(QOp::Row(cells, RowForm::Borrowed)),
+                3 if cells.len() >= 2 => {
+                    // the row is begun with write_col and completed by write_row with the remaining cells
+                    let k = 1 + rng.usize(cells.len() - 1);
+                    let mut cells = cells;
+                    let rest = cells.split_off(k);
+                    for c in cells {
+                        ops.push(QOp::Col(c));
+                    }
+                    ops.push(QOp::Row(rest, if rng.bool() { RowForm::Owned } else { RowForm::Borrowed }));
+                }
                 _ => {
                     for c in cells {
                         ops.push(QOp::Col(c));
@@ -1055,9 +1075,19 @@ pub fn run_c07(ctx: &Ctx) -> Report {
                 .collect();
             want.push(cells.iter().map(|c| sem_of(&c.v)).collect());
             written.extend(cells.iter().cloned());
-            match rng.below(3) {
+            match rng.below(4) {
                 0 => ops.push(QOp::Row(cells, RowForm::Owned)),
                 1 => ops.push(QOp::Row(cells, RowForm::Borrowed)),
+                3 if cells.len() >= 2 => {
+                    // the row is begun with write_col and completed by write_row with the remaining cells
+                    let k = 1 + rng.usize(cells.len() - 1);
+                    let mut cells = cells;
+                    let rest = cells.split_off(k);
+                    for c in cells {
+                        ops.push(QOp::Col(c));
+                    }
+                    ops.push(QOp::Row(rest, if rng.bool() { RowForm::Owned } else { RowForm::Borrowed }));
+                }
                 _ => {
                     for c in cells {
                         ops.push(QOp::Col(c));
